@@ -46,6 +46,15 @@ func ExpandIn[T any](query string, param string, args []T) (string, []any) {
 	return query, anyArgs
 }
 
+// CountDistinct returns the number of distinct values in a slice.
+func CountDistinct[T comparable](vals []T) int {
+	seen := make(map[T]struct{}, len(vals))
+	for _, v := range vals {
+		seen[v] = struct{}{}
+	}
+	return len(seen)
+}
+
 func Select[T any](db Tx, query string, args []any,
 	scan func(rows *sql.Rows) (T, error)) ([]T, error) {
 
